@@ -1,6 +1,7 @@
 package main
 
 import (
+	"bytes"
 	"fmt"
 	"math/rand"
 	"os"
@@ -37,6 +38,9 @@ func (c *Ctx) readerRun(name string, cases []*RCase, withStd bool) (int, error) 
 	stdByID := map[string]*RCase{}
 	for _, cs := range cases {
 		cs.Family, cs.Impl = "reader", "fastgo"
+		if c.mech && cs.Kind == "flate" && len(fg)%4 == 0 {
+			cs.Mech = true // every fourth flate case also records the Reader's mechanism events
+		}
 		if _, dup := byID[cs.ID]; dup {
 			return 0, fmt.Errorf("duplicate case id %s", cs.ID)
 		}
@@ -104,6 +108,9 @@ func (c *Ctx) readerRun(name string, cases []*RCase, withStd bool) (int, error) 
 			}
 		}
 	}
+	if err := c.readerMechDrift(trace); err != nil {
+		return 0, err
+	}
 	c.ev.Traces += len(fg)
 	c.ev.Evaluations += len(fg)
 	c.logf("%s: %d cases executed (%.1fs), %d events validated (%.1fs), %d violating events", name, len(fg), t1.Sub(t0).Seconds(), nev, time.Since(t1).Seconds(), len(viols))
@@ -117,6 +124,33 @@ func (c *Ctx) readerModels() error {
 		return err
 	}
 	return c.ModelCheck("ReaderRefine", "MC_ReaderRefine.cfg", 10*time.Minute)
+}
+
+// readerMechDrift validates the Reader's hook events against ReaderMechTrace (MODEL-DRIFT, never a verdict).
+func (c *Ctx) readerMechDrift(trace string) error {
+	b, err := os.ReadFile(trace)
+	if err != nil || !bytes.Contains(b, []byte(`"ev":"RMech"`)) {
+		return nil
+	}
+	viols, _, err := c.Validate("ReaderMechTrace", "TV_ReaderMech.cfg", trace, false)
+	if err != nil {
+		return err
+	}
+	counts := map[string]int{}
+	for _, v := range viols {
+		for _, cl := range v.Clauses {
+			counts[cl]++
+		}
+	}
+	c.ev.Extra["mechanism_events_validated"] = bytes.Count(b, []byte(`"ev":"RMech"`))
+	c.ev.Extra["model_drift"] = counts
+	for cl, n := range counts {
+		fmt.Printf("MODEL-DRIFT: %s x%d: the Reader no longer follows the mechanism model (ReaderMechTrace); not a verdict\n", cl, n)
+	}
+	if len(viols) > 0 {
+		c.logf("first drifting event: %s", viols[0].Event)
+	}
+	return nil
 }
 
 // clauses the standard library itself is known not to meet (DESIGN R3); they
